@@ -256,7 +256,9 @@ def lit_reverse(lit):
 # implementation side
 # --------------------------------------------------------------------------
 def make_points(cloud):
-    return {i: g.Points(np.array(c, dtype=float).reshape(-1, 3), f"S{i}") for i, c in cloud.items()}
+    # (integer-typed clouds -- coordinates in whole grid units -- are handed over as they are)
+    return {i: g.Points(np.array(c, dtype=None if np.asarray(c).dtype.kind in "iu" else float).reshape(-1, 3), f"S{i}")
+            for i, c in cloud.items()}
 
 
 def make_fpath(pts, lit):
@@ -623,6 +625,65 @@ for nbig in ((40000,) if Q else (40000, 66000)):
         chk.violation("large-set", f"ray tracing through a set of {nbig} points violates {bad}",
                       {"set_sizes": [2, nbig, 3], "violations": bad, "indices": np.asarray(r.indices),
                        "times": np.asarray(r.times), "note": "interior set = linspace(-1,1,n) on the x axis"})
+
+# ---- large interior sets whose samples are NOT stored in order along the surface, or lie on a corrugated
+#      surface: the travel time is not unimodal along the storage index (spec predicates: brute force) -----
+for trial in range(4 if Q else 24):
+    nint = int(rng.choice([512, 513, 700, 1100, 3000]))
+    xs = np.linspace(-40e-3, 40e-3, nint)
+    kind_ = ["shuffled flat wall", "corrugated surface", "two interior sets", "shuffled corrugated"][trial % 4]
+    zs = np.zeros(nint) if kind_ == "shuffled flat wall" else 2e-3 * np.sin(xs * float(rng.uniform(300.0, 900.0)))
+    wall = np.stack([xs, np.zeros(nint), zs], axis=1)
+    if "shuffled" in kind_:
+        wall = wall[rng.permutation(nint)]
+    src = np.stack([rng.uniform(-20e-3, 20e-3, 3), np.zeros(3), rng.uniform(-30e-3, -10e-3, 3)], axis=1)
+    dst = np.stack([rng.uniform(-20e-3, 20e-3, 4), np.zeros(4), rng.uniform(10e-3, 30e-3, 4)], axis=1)
+    if kind_ == "two interior sets":
+        n2 = 600
+        x2 = np.linspace(-40e-3, 40e-3, n2)
+        wall2 = np.stack([x2, np.zeros(n2), 40e-3 + 1e-3 * np.cos(x2 * 500.0)], axis=1)[rng.permutation(n2)]
+        wall = wall[:600]
+        big_cloud = {0: src, 1: wall, 2: wall2, 3: dst - np.array([0.0, 0.0, 20e-3])}
+        lit = (0, [(1480.0, 1), (6300.0, 2), (3100.0, 3)])
+    else:
+        big_cloud = {0: src, 1: wall, 2: dst}
+        lit = (0, [(1480.0, 1), (float(rng.choice([6300.0, 3100.0])), 2)])
+    r = impl_solve(big_cloud, [lit])[0]
+    rr = impl_solve(big_cloud, [lit_reverse(lit)])[0]
+    evaluations += 2
+    chk.count(boundary=f"unordered-or-corrugated-interior-set")
+    nontrivial.add(("unordered", trial))
+    bad = spec_check(big_cloud, lit, np.asarray(r.times), np.asarray(r.indices), 1e-12)
+    if not np.allclose(np.asarray(rr.times).T, np.asarray(r.times), rtol=1e-12, atol=0):
+        bad.append("reverse!=transpose")
+    if bad:
+        chk.violation("unordered-set", f"ray tracing through a {kind_} of {len(wall)} points violates {bad}",
+                      {"kind": kind_, "set_sizes": [len(big_cloud[k]) for k in sorted(big_cloud)], "violations": bad,
+                       "points": {k: v for k, v in big_cloud.items()} if len(wall) <= 700 else "regenerated from seed/tier (too large to inline)",
+                       "path": [lit[0], lit[1]], "times": np.asarray(r.times)})
+
+# ---- coordinates stored as INTEGERS (positions in whole grid units): the same points, the same answer ---------
+for trial in range(6 if Q else 60):
+    nsets = int(rng.integers(2, 5))
+    idt = [np.int64, np.int32, np.int16][trial % 3]
+    icloud = {}
+    for k in range(nsets):
+        c = rng.integers(-30, 31, size=(int(rng.integers(1, 7)), 3))
+        c[:, 2] += 25 * k
+        if trial % 2 == 0:
+            c[:, 1] = 0
+        icloud[k] = c.astype(idt)
+    lit = (0, [(float(rng.choice([1.0, 2.0, 1480.0, 6300.0])), k) for k in range(1, nsets)])
+    fcloud = {k: v.astype(float) for k, v in icloud.items()}
+    r = impl_solve(icloud, [lit])[0]
+    evaluations += 1
+    chk.count(boundary=f"integer-coordinates-{np.dtype(idt).name}")
+    nontrivial.add(("intcoords", trial))
+    bad = spec_check(fcloud, lit, np.asarray(r.times, float), np.asarray(r.indices), 1e-12)
+    if bad:
+        chk.violation("integer-coordinates", f"ray tracing of point sets whose coordinates are stored as {np.dtype(idt).name} violates {bad}",
+                      {"points": {k: v.tolist() for k, v in icloud.items()}, "dtype": np.dtype(idt).name, "path": [lit[0], lit[1]],
+                       "violations": bad, "times": np.asarray(r.times, float)})
 
 # ---- history: a Path traced, then modified (velocity / mode), then traced again -------------
 # must give what a freshly built path gives
